@@ -15,6 +15,15 @@ package reader
 // the transport is used for a whole read under the exclusive hold (two reads on one Reader must not interleave on the link)
 //@ exclusive Reader.nfc by mu for C20
 
+// C08 (pipeline facts): the table from data-group number to file identifier is exactly the nine supported groups
+//@ invariant mapdom(dgToFileId, 1) && mapval(dgToFileId, 1) == 257 && mapdom(dgToFileId, 2) && mapval(dgToFileId, 2) == 258 && mapdom(dgToFileId, 7) && mapval(dgToFileId, 7) == 263
+//@        && mapdom(dgToFileId, 11) && mapval(dgToFileId, 11) == 267 && mapdom(dgToFileId, 12) && mapval(dgToFileId, 12) == 268 && mapdom(dgToFileId, 13) && mapval(dgToFileId, 13) == 269
+//@        && mapdom(dgToFileId, 14) && mapval(dgToFileId, 14) == 270 && mapdom(dgToFileId, 15) && mapval(dgToFileId, 15) == 271 && mapdom(dgToFileId, 16) && mapval(dgToFileId, 16) == 272
+//@        && (forall k :: mapdom(dgToFileId, k) ==> supportedDG(k))
+//@ spec func dgFileId(d int) int { 256 + d }
+// a listed group is done when it is held, the chip answered 'not found' for its file, or it is an image group and images are skipped
+//@ pred dgDone(reader *Reader, doc document.Document, d int) { !supportedDG(d) || (reader.skipImages && (d == 2 || d == 7)) || dgHeld(doc, d) || chipSaidNotFound(ref(reader.nfc), dgFileId(d)) }
+
 // what every step may rely on: a transport that is set up, and a result object to fill in
 //@ pred readerOK(reader *Reader) { reader != nil && validNfc(reader.nfc) && reader.nfc.readFileMaxChunks >= 0 && reader.nfc.readFileMaxTlvLength <= 65535 && reader.cscaCertPool != nil }
 //@ pred stateOK(state *ReaderState) { state != nil && state.docEx != nil && state.password != nil && docWF(state.docEx.Document) }
@@ -63,24 +72,24 @@ package reader
 //@   safety all
 
 //@ func NewReaderState
-//@   props C20 C11
+//@   props C20 C11 C08
 //@   ensures result != nil && fresh(result) && result.docEx != nil && fresh(result.docEx) && result.password == password
 //@   ensures "empty-document": result.docEx.Document.Mf.Lds1.Sod == nil && result.docEx.Document.Mf.CardSecurity == nil && result.docEx.Document.Mf.Lds1.Dg14 == nil && result.docEx.Document.Mf.CardAccess == nil
 //@   assigns nothing
 //@   safety all
 
 //@ func (reader *Reader) report
-//@   props C20 C11
+//@   props C20 C11 C08
 //@   requires reader != nil
 //@   assigns nothing
 //@   safety all
 //@ func (reader *Reader) reportPhase
-//@   props C20 C11
+//@   props C20 C11 C08
 //@   requires reader != nil
 //@   assigns nothing
 //@   safety all
 //@ func (reader *Reader) reportDataGroup
-//@   props C20 C11
+//@   props C20 C11 C08
 //@   requires reader != nil
 //@   assigns nothing
 //@   safety all
@@ -93,7 +102,7 @@ package reader
 //@   ensures "configuration-untouched": reader.skipPace == old(reader.skipPace) && reader.skipImages == old(reader.skipImages) && reader.aaChallenge == old(reader.aaChallenge)
 
 //@ func runSteps
-//@   props C20 C11
+//@   props C20 C11 C08
 //@   requires readerOK(reader) && stateOK(state) && reader.mu.held
 //@   ensures "lock-still-held": reader.mu.held
 //@   ensures "reader-and-state-still-usable": readerOK(reader) && stateOK(state)
@@ -101,60 +110,79 @@ package reader
 //@   safety bounds overflow      // a nil step would panic (contained by ReadDocument's recover); it is not a locking matter
 
 //@ func recordAtrAts(reader, state)
-//@   props C20 C11
+//@   props C20 C11 C08
 //@   implements ReaderStep
 //@   safety all
 
 //@ func selectMF(reader, state)
-//@   props C20 C11
+//@   props C20 C11 C08
 //@   implements ReaderStep
 //@   ensures "select-mf-errors-are-tolerated": err == nil
 //@   safety all
 
 //@ func selectMrtdApplication(reader, state)
-//@   props C20 C11
+//@   props C20 C11 C08
 //@   implements ReaderStep
 //@   ensures "application-selected-or-error": err == nil ==> reader.nfc.lastSW == 36864 || reader.nfc.lastSW == 27266
 //@   safety all
 
 //@ func readEfSod(reader, state)
-//@   props C20 C11
+//@   props C20 C11 C08
 //@   implements ReaderStep
 //@   ensures "security-object-held-or-the-chip-said-not-found": err == nil && state.docEx.Document.Mf.Lds1.Sod == nil ==> chipSaidNotFound(ref(reader.nfc), 285)
 //@   ensures "session-kept": reader.nfc.sm == old(reader.nfc.sm)
 //@   safety all
 
 //@ func readEfCom(reader, state)
-//@   props C20 C11
+//@   props C20 C11 C08
 //@   implements ReaderStep
 //@   ensures "held-or-the-chip-said-not-found": err == nil && state.docEx.Document.Mf.Lds1.Com == nil ==> chipSaidNotFound(ref(reader.nfc), 286)
 //@   ensures "session-kept": reader.nfc.sm == old(reader.nfc.sm)
 //@   safety all
 
 //@ func readEfDir(reader, state)
-//@   props C20 C11
+//@   props C20 C11 C08
 //@   implements ReaderStep
 //@   ensures "held-or-the-chip-said-not-found": err == nil && state.docEx.Document.Mf.Dir == nil ==> chipSaidNotFound(ref(reader.nfc), 12032)
 //@   ensures "session-kept": reader.nfc.sm == old(reader.nfc.sm)
 //@   safety all
 
 //@ func readEfCardAccess(reader, state)
-//@   props C20 C11
+//@   props C20 C11 C08
 //@   implements ReaderStep
 //@   ensures "held-or-the-chip-said-not-found": err == nil && state.docEx.Document.Mf.CardAccess == nil ==> chipSaidNotFound(ref(reader.nfc), 284)
 //@   ensures "session-kept": reader.nfc.sm == old(reader.nfc.sm)
 //@   safety all
 
 //@ func readLDS1dgs(reader, state)
-//@   props C20 C11
+//@   props C20 C11 C08
 //@   implements ReaderStep
 //@   ensures "needs-the-security-object": old(state.docEx.Document.Mf.Lds1.Sod) == nil ==> err != nil
 //@   ensures "session-kept": reader.nfc.sm == old(reader.nfc.sm)
 //@   loop 1 invariant readerOK(reader) && stateOK(state)
+//@   loop 1 invariant "same-list": dgHashes == old(state.docEx.Document.Mf.Lds1.Sod.LdsSecurityObject.DataGroupHashValues) && state.docEx.Document.Mf.Lds1.Sod == old(state.docEx.Document.Mf.Lds1.Sod)
+//@   loop 1 invariant "listed-so-far-done-1": (forall j :: 0 <= j && j < rangeindex + 1 && dgHashes[j].DataGroupNumber == 1 ==> dgDone(reader, state.docEx.Document, 1))
+//@   loop 1 invariant "listed-so-far-done-2": (forall j :: 0 <= j && j < rangeindex + 1 && dgHashes[j].DataGroupNumber == 2 ==> dgDone(reader, state.docEx.Document, 2))
+//@   loop 1 invariant "listed-so-far-done-7": (forall j :: 0 <= j && j < rangeindex + 1 && dgHashes[j].DataGroupNumber == 7 ==> dgDone(reader, state.docEx.Document, 7))
+//@   loop 1 invariant "listed-so-far-done-11": (forall j :: 0 <= j && j < rangeindex + 1 && dgHashes[j].DataGroupNumber == 11 ==> dgDone(reader, state.docEx.Document, 11))
+//@   loop 1 invariant "listed-so-far-done-12": (forall j :: 0 <= j && j < rangeindex + 1 && dgHashes[j].DataGroupNumber == 12 ==> dgDone(reader, state.docEx.Document, 12))
+//@   loop 1 invariant "listed-so-far-done-13": (forall j :: 0 <= j && j < rangeindex + 1 && dgHashes[j].DataGroupNumber == 13 ==> dgDone(reader, state.docEx.Document, 13))
+//@   loop 1 invariant "listed-so-far-done-14": (forall j :: 0 <= j && j < rangeindex + 1 && dgHashes[j].DataGroupNumber == 14 ==> dgDone(reader, state.docEx.Document, 14))
+//@   loop 1 invariant "listed-so-far-done-15": (forall j :: 0 <= j && j < rangeindex + 1 && dgHashes[j].DataGroupNumber == 15 ==> dgDone(reader, state.docEx.Document, 15))
+//@   loop 1 invariant "listed-so-far-done-16": (forall j :: 0 <= j && j < rangeindex + 1 && dgHashes[j].DataGroupNumber == 16 ==> dgDone(reader, state.docEx.Document, 16))
+//@   ensures "listed-group-1-is-read-or-absent-on-the-chip": err == nil ==> (forall j :: 0 <= j && j < len(old(state.docEx.Document.Mf.Lds1.Sod.LdsSecurityObject.DataGroupHashValues)) && old(state.docEx.Document.Mf.Lds1.Sod.LdsSecurityObject.DataGroupHashValues)[j].DataGroupNumber == 1 ==> dgDone(reader, state.docEx.Document, 1))
+//@   ensures "listed-group-2-is-read-or-absent-on-the-chip": err == nil ==> (forall j :: 0 <= j && j < len(old(state.docEx.Document.Mf.Lds1.Sod.LdsSecurityObject.DataGroupHashValues)) && old(state.docEx.Document.Mf.Lds1.Sod.LdsSecurityObject.DataGroupHashValues)[j].DataGroupNumber == 2 ==> dgDone(reader, state.docEx.Document, 2))
+//@   ensures "listed-group-7-is-read-or-absent-on-the-chip": err == nil ==> (forall j :: 0 <= j && j < len(old(state.docEx.Document.Mf.Lds1.Sod.LdsSecurityObject.DataGroupHashValues)) && old(state.docEx.Document.Mf.Lds1.Sod.LdsSecurityObject.DataGroupHashValues)[j].DataGroupNumber == 7 ==> dgDone(reader, state.docEx.Document, 7))
+//@   ensures "listed-group-11-is-read-or-absent-on-the-chip": err == nil ==> (forall j :: 0 <= j && j < len(old(state.docEx.Document.Mf.Lds1.Sod.LdsSecurityObject.DataGroupHashValues)) && old(state.docEx.Document.Mf.Lds1.Sod.LdsSecurityObject.DataGroupHashValues)[j].DataGroupNumber == 11 ==> dgDone(reader, state.docEx.Document, 11))
+//@   ensures "listed-group-12-is-read-or-absent-on-the-chip": err == nil ==> (forall j :: 0 <= j && j < len(old(state.docEx.Document.Mf.Lds1.Sod.LdsSecurityObject.DataGroupHashValues)) && old(state.docEx.Document.Mf.Lds1.Sod.LdsSecurityObject.DataGroupHashValues)[j].DataGroupNumber == 12 ==> dgDone(reader, state.docEx.Document, 12))
+//@   ensures "listed-group-13-is-read-or-absent-on-the-chip": err == nil ==> (forall j :: 0 <= j && j < len(old(state.docEx.Document.Mf.Lds1.Sod.LdsSecurityObject.DataGroupHashValues)) && old(state.docEx.Document.Mf.Lds1.Sod.LdsSecurityObject.DataGroupHashValues)[j].DataGroupNumber == 13 ==> dgDone(reader, state.docEx.Document, 13))
+//@   ensures "listed-group-14-is-read-or-absent-on-the-chip": err == nil ==> (forall j :: 0 <= j && j < len(old(state.docEx.Document.Mf.Lds1.Sod.LdsSecurityObject.DataGroupHashValues)) && old(state.docEx.Document.Mf.Lds1.Sod.LdsSecurityObject.DataGroupHashValues)[j].DataGroupNumber == 14 ==> dgDone(reader, state.docEx.Document, 14))
+//@   ensures "listed-group-15-is-read-or-absent-on-the-chip": err == nil ==> (forall j :: 0 <= j && j < len(old(state.docEx.Document.Mf.Lds1.Sod.LdsSecurityObject.DataGroupHashValues)) && old(state.docEx.Document.Mf.Lds1.Sod.LdsSecurityObject.DataGroupHashValues)[j].DataGroupNumber == 15 ==> dgDone(reader, state.docEx.Document, 15))
+//@   ensures "listed-group-16-is-read-or-absent-on-the-chip": err == nil ==> (forall j :: 0 <= j && j < len(old(state.docEx.Document.Mf.Lds1.Sod.LdsSecurityObject.DataGroupHashValues)) && old(state.docEx.Document.Mf.Lds1.Sod.LdsSecurityObject.DataGroupHashValues)[j].DataGroupNumber == 16 ==> dgDone(reader, state.docEx.Document, 16))
 //@   safety all
 
 //@ func performPace(reader, state)
-//@   props C20 C11
+//@   props C20 C11 C08
 //@   implements ReaderStep
 //@   ensures "errors-are-recorded-not-returned": err == nil
 //@   ensures "skipped-on-request": old(reader.skipPace) ==> reader.nfc.sm == old(reader.nfc.sm) && state.docEx.Session.PaceResult == old(state.docEx.Session.PaceResult) && state.docEx.Session.PaceCamResult == old(state.docEx.Session.PaceCamResult)
@@ -165,7 +193,7 @@ package reader
 //@   safety all
 
 //@ func performBac(reader, state)
-//@   props C20 C11
+//@   props C20 C11 C08
 //@   implements ReaderStep
 //@   ensures "errors-are-recorded-not-returned": err == nil
 //@   ensures "only-without-a-session": old(reader.nfc.sm) != nil ==> reader.nfc.sm == old(reader.nfc.sm) && state.docEx.Session.BacResult == old(state.docEx.Session.BacResult)
@@ -175,28 +203,28 @@ package reader
 //@   safety all
 
 //@ func performChipAuthentication(reader, state)
-//@   props C20 C11
+//@   props C20 C11 C08
 //@   implements ReaderStep
 //@   ensures "active-authentication-verdict-is-the-protocols": err == nil && state.docEx.Session.ActiveAuthResult != nil ==> (state.docEx.Session.ActiveAuthResult.Success == (state.docEx.Session.ActiveAuthErr == nil))
 //@   ensures "chip-authentication-only-if-nothing-completed": err == nil && (aaOK(state.docEx.Session) || old(camOK(state.docEx.Session))) ==> state.docEx.Session.ChipAuthResult == old(state.docEx.Session.ChipAuthResult)
 //@   safety all
 
 //@ func performPassiveAuthentication(reader, state)
-//@   props C20 C11
+//@   props C20 C11 C08
 //@   implements ReaderStep
 //@   ensures "errors-are-recorded-not-returned": err == nil
 //@   ensures "verdict-is-the-checks": state.docEx.Session.PassiveAuthResult != nil && (state.docEx.Session.PassiveAuthResult.Success == (state.docEx.Session.PassiveAuthErr == nil))
 //@   safety all
 
 //@ func verifyDocument(reader, state)
-//@   props C20 C11
+//@   props C20 C11 C08
 //@   implements ReaderStep
 //@   ensures "errors-are-recorded-not-returned": err == nil
 //@   ensures "recorded-verdict-is-the-completeness-check": state.docEx.Session.DocumentVerifyErr == nil ==> state.docEx.Document.Mf.Lds1.Dg1 != nil && state.docEx.Document.Mf.Lds1.Sod != nil
 //@   safety all
 
 //@ func (reader *Reader) ReadDocument
-//@   props C20 C11
+//@   props C20 C11 C08
 //@   requires readerOK(reader) && !reader.mu.held && password != nil
 //@   ensures "lock-released": !reader.mu.held
 //@   safety all
